@@ -18,13 +18,17 @@ OProc == ProcOf(O.proc)
 ORep == [c \in Status |-> Rng(O.report[c])]
 OFiles == Rng(O.written)
 
+OIdx == {[oid |-> O.index[i].oid, mods |-> Rng(O.index[i].mods)] : i \in DOMAIN O.index}
+\* the destination held no index before the run (fixture), so the index written is the index of this run's compiled modules
 TInit == /\ tid \in 1..Len(Traces) /\ DInitW(Traces[tid].w)
 TNext == DNext /\ UNCHANGED tid
 TSpec == TInit /\ [][TNext]_<<allvars, tid>>
 
 Failed ==
-  {n \in {"Terminates", "ExitZeroOnlyIfClean", "Usage64", "HelpDoesNothing", "ReportMatchesStatus", "FilesAreReported", "IndexOnlyWhenAsked"} :
-     CASE n = "Terminates" -> O.exit = 124      \* the harness cut the run off: the script did not end
+  {n \in {"IndexOnlyDefines", "IndexCovers", "Terminates", "ExitZeroOnlyIfClean", "Usage64", "HelpDoesNothing", "ReportMatchesStatus", "FilesAreReported", "IndexOnlyWhenAsked"} :
+     CASE n = "IndexOnlyDefines" -> O.idx /\ ~IndexOnlyDefines(OIdx, w)
+       [] n = "IndexCovers" -> O.idx /\ ~IndexCovers(OIdx, w, StatusSet(OProc, {"compiled"}))
+       [] n = "Terminates" -> O.exit = 124      \* the harness cut the run off: the script did not end
        [] n = "ExitZeroOnlyIfClean" -> w.usage = "none" /\ ~ExitZeroOnlyIfClean(O.exit, OProc)
        [] n = "Usage64" -> ~Usage64(w.usage, O.exit, OFiles \cup Rng(O.removed), O.idx, O.ncompiles)
        [] n = "HelpDoesNothing" -> ~HelpDoesNothing(w.usage, O.exit, OFiles \cup Rng(O.removed), O.idx, O.ncompiles)
